@@ -1076,4 +1076,8 @@ def run(run, model):
     from rules import c06
     for fn_ in (c06.r06_4,):
         run.try_rule(fn_, model)
+    # a generic function used as a value must name an instance that exists: a reference that keeps the generic name dangles in every
+    # later stage (shared with C07 R07.20)
+    from rules import c07 as _c07b
+    run.try_rule(_c07b.r07_20, model)
     run.assume("constraint generation in check.rs is taken as given; only the gates, the unifier and the pattern/expected-type plumbing are decided")
